@@ -169,7 +169,7 @@ func checkUse(res *core.Result, pkg *packages.Package, fd *ast.FuncDecl, used ma
 			Rule: "OKFLOW.use",
 			Key:  fmt.Sprintf("OKFLOW.use|%s|%s", name, fn.Name()),
 			Pos:  core.Pos(c.Pos()), Func: name,
-			Msg:  fmt.Sprintf("the status result of %s is %s; a failure would go unreported", fn.Name(), how),
+			Msg: fmt.Sprintf("the status result of %s is %s; a failure would go unreported", fn.Name(), how),
 		})
 	}
 	ast.Inspect(fd.Body, func(n ast.Node) bool {
@@ -197,7 +197,7 @@ func checkUse(res *core.Result, pkg *packages.Package, fd *ast.FuncDecl, used ma
 							Rule: "OKFLOW.discard",
 							Key:  fmt.Sprintf("OKFLOW.discard|%s|%s", name, fn.Name()),
 							Pos:  core.Pos(c.Pos()), Func: name,
-							Msg:  fmt.Sprintf("every result of %s is discarded (call used as a statement): the value it reports (e.g. how much work was actually done) is lost", fn.Name()),
+							Msg: fmt.Sprintf("every result of %s is discarded (call used as a statement): the value it reports (e.g. how much work was actually done) is lost", fn.Name()),
 						})
 					}
 				}
@@ -561,7 +561,7 @@ func checkCond(res *core.Result, pkg *packages.Package) {
 				Rule: "OKFLOW.cond",
 				Key:  fmt.Sprintf("OKFLOW.cond|%s|never", name),
 				Pos:  core.Pos(fd.Pos()), Func: name,
-				Msg:  "error-returning solver can never return a Condition error (neither directly nor through a callee): near-singularity would be silent",
+				Msg: "error-returning solver can never return a Condition error (neither directly nor through a callee): near-singularity would be silent",
 			})
 			continue
 		}
@@ -585,7 +585,7 @@ func checkCond(res *core.Result, pkg *packages.Package) {
 						Rule: "OKFLOW.cond",
 						Key:  fmt.Sprintf("OKFLOW.cond|%s|cond-field", name),
 						Pos:  core.Pos(fd.Pos()), Func: name,
-						Msg:  "the receiver stores a condition estimate (field cond) but this solver never returns Condition(cond) under cond > ConditionTolerance",
+						Msg: "the receiver stores a condition estimate (field cond) but this solver never returns Condition(cond) under cond > ConditionTolerance",
 					})
 				}
 			}
@@ -641,7 +641,7 @@ func summarise(res *core.Result, pkg *packages.Package, fd *ast.FuncDecl, tolObj
 							Rule: "OKFLOW.cond",
 							Key:  fmt.Sprintf("OKFLOW.cond|%s|inf-unguarded", name),
 							Pos:  core.Pos(rs.Pos()), Func: name,
-							Msg:  "Condition(+Inf) is returned without being guarded by a status (ok) test",
+							Msg: "Condition(+Inf) is returned without being guarded by a status (ok) test",
 						})
 					}
 					continue
@@ -699,7 +699,7 @@ func summarise(res *core.Result, pkg *packages.Package, fd *ast.FuncDecl, tolObj
 						Rule: "OKFLOW.cond",
 						Key:  fmt.Sprintf("OKFLOW.cond|%s|finite-guard", name),
 						Pos:  core.Pos(rs.Pos()), Func: name,
-						Msg:  fmt.Sprintf("Condition(%s) is not returned under the guard %s > ConditionTolerance", want, want),
+						Msg: fmt.Sprintf("Condition(%s) is not returned under the guard %s > ConditionTolerance", want, want),
 					})
 				}
 				continue
